@@ -1088,7 +1088,7 @@ func (t *translator) emit(specs []tspec, sb *strings.Builder) {
 		if n == 0 {
 			sb.WriteString("  unit : Unit := ()\n")
 		}
-		sb.WriteString("\n")
+		sb.WriteString("deriving DecidableEq, Repr\n\n")
 	}
 	for _, it := range items {
 		if it.f == nil {
